@@ -85,10 +85,10 @@ pub fn run_case(i: usize, rng: &mut impl RngCore, thorough: bool) -> Outcome {
         // ---- F1: byte strings into the decoder
         0 | 1 => {
             o.family = "decode";
-            let kind = (i / 10) % 19;
-            if kind >= 12 {
+            let kind = (i / 10) % 20;
+            if kind >= 13 {
                 // the serde form driven by a hostile data format: other visitor entry points, lying size hints
-                let mode = kind - 12;
+                let mode = kind - 13;
                 let body = if i % 3 == 0 { shaped(1 + i % 6, 1 + (i / 6) % 8, rng).to_bytes() } else { (0..(rng.next_u32() % 300) as usize).map(|_| rng.next_u32() as u8).collect() };
                 let hint = [usize::MAX, 1 << 40, 1 << 28, 1 << 20, body.len(), 0][(i / 7) % 6];
                 o.input_bytes = body.len();
@@ -137,6 +137,14 @@ pub fn run_case(i: usize, rng: &mut impl RngCore, thorough: bool) -> Outcome {
                     b
                 },
                 10 => vec![(1 + i % 6) as u8; 1 + 32 * ((i / 6) % 100)],
+                11 => {
+                    // lengths around the smallest well-formed encodings of each degree, content canonical as scalars
+                    let tag = 1 + (i / 200) % 6;
+                    let len = 1 + 32 * (6 + (i / 1200) % 9) + [0usize, 0, 1, 31][(i / 400) % 4];
+                    let mut b: Vec<u8> = (0..len).map(|k| if k > 0 && (k - 1) % 32 == 31 { 0x0F } else { (k * 13 + i) as u8 }).collect();
+                    b[0] = tag as u8;
+                    b
+                },
                 _ => {
                     let len = 1 + 32 * ((rng.next_u32() % 60) as usize) + (rng.next_u32() % 3) as usize;
                     let mut b: Vec<u8> = (0..len).map(|_| rng.next_u32() as u8).collect();
@@ -148,7 +156,14 @@ pub fn run_case(i: usize, rng: &mut impl RngCore, thorough: bool) -> Outcome {
             o.elements = bytes.len() / 32;
             o.table = 0;
             o.descr = json!({"family": "decode", "kind": kind, "len": bytes.len(), "tag": bytes.first()});
+            // the same bytes once more, ending exactly at / starting exactly after an inaccessible page: a read outside
+            // the slice faults (the child dies, which the parent attributes to this case)
+            let fenced: Vec<Guarded> = if bytes.len() <= (1 << 21) { [true, false].iter().filter_map(|e| Guarded::new(&bytes, *e)).collect() } else { vec![] };
             observe(&mut o, || {
+                for g in &fenced {
+                    let _ = Proof::from_bytes(g.slice());
+                    let _ = Proof::extension_degree_from_proof_bytes(g.slice());
+                }
                 let _ = Proof::from_bytes(&bytes);
                 // the serde path
                 let mut framed = (bytes.len() as u64).to_le_bytes().to_vec();
